@@ -295,9 +295,13 @@ def check_construction(data: dict, lab: Labels) -> None:
                     n_el = 33 + d.next(30)
                     v = {"tuple": [*range(n_el), True]} if inner["n"] == "int" else {"tuple": [*([True, False] * (n_el // 2 + 1)), 1]}
                     lab.tag("long-tuple-offender-equal-to-earlier-element")
-                elif CF.strip_newtype(a)["k"] == "tuple_fix" and isinstance(v, dict) and "tuple" in v and d.chance(1, 2):
-                    xs = v["tuple"]  # exact-length rule: one element too many / too few
-                    v = {"tuple": [*xs, xs[-1]]} if d.chance(1, 2) else {"tuple": xs[:-1]}
+                elif CF.strip_newtype(a)["k"] == "tuple_fix" and isinstance(v, dict) and "tuple" in v and d.chance(4, 5):
+                    xs = v["tuple"]
+                    if d.chance(1, 3):  # the very same items in a list: right length, right items, not a tuple
+                        v = {"list": list(xs)}
+                        lab.tag("fixed-tuple-items-in-a-list")
+                    else:  # exact-length rule: one element too many / too few
+                        v = {"tuple": [*xs, xs[-1]]} if d.chance(1, 2) else {"tuple": xs[:-1]}
                 else:
                     v = corrupt(v, d)
         # half of the fields carry short names that are fragments of the library's own field names
@@ -461,6 +465,9 @@ def st_construction(ctx: Ctx):
         {"k": "union", "of": [sc("bool"), sc("str")], "pipe": True},
         {"k": "tuple_var", "of": {"k": "union", "of": [sc("int"), sc("bool")], "pipe": True}},
         {"k": "union", "of": [sc("float"), sc("int"), {"k": "none"}], "pipe": True},
+        {"k": "tuple_fix", "of": [sc("int"), sc("str")]},
+        {"k": "tuple_fix", "of": [sc("int"), sc("int")]},
+        {"k": "opt", "of": {"k": "tuple_fix", "of": [sc("str"), sc("str"), sc("bool")]}},
     ])
     ann = st.one_of(CF.st_annotation(3, allow_forward=True, allow_rejected=False), related).filter(
         lambda a: CF.classify_ref(a) in ("child", "property"))
